@@ -461,7 +461,23 @@ func (tb *termBuilder) callTerm(c *ssa.CallCommon, v ssa.Value, in ssa.Instructi
 	for _, a := range c.Args {
 		t.Args = append(t.Args, tb.term(a, in))
 	}
-	return canonOrderCall(t)
+	return canonMustCodec(canonOrderCall(t))
+}
+
+// canonMustCodec: amino's MustMarshalX(v) is MarshalX(v) with the error turned into a panic: one spelling for the bytes.
+func canonMustCodec(t *Term) *Term {
+	const pfx = "(*github.com/tendermint/go-amino.Codec).Must"
+	if t.Op == "call" && strings.HasPrefix(t.Name, pfx+"Unmarshal") {
+		n := *t
+		n.Name = "(*github.com/tendermint/go-amino.Codec)." + strings.TrimPrefix(t.Name, pfx)
+		return &n
+	}
+	if t.Op != "call" || !strings.HasPrefix(t.Name, pfx+"Marshal") {
+		return t
+	}
+	n := *t
+	n.Name = "(*github.com/tendermint/go-amino.Codec)." + strings.TrimPrefix(t.Name, pfx)
+	return &Term{Op: "extract", Name: "0", Args: []*Term{&n}, V: t.V, In: t.In}
 }
 
 // canonOrderCall gives the four order methods of the repo's number types one spelling: GT(a,b) is LT(b,a),
